@@ -24,6 +24,17 @@ const (
 var verifRwNames = []string{"comment line", "block comment line", "blank line", "indent (spaces)", "indent (tab)", "trailing blank",
 	"trailing comment", "CRLF line ends", "CR line ends", "quote a parameter", "explicit parentheses"}
 
+// refEndsWithSchemaBody: templates whose last line is the end of a JSight schema body (the schema library
+// decides where that body ends, and reads the comments that follow it).
+func refEndsWithSchemaBody(t int) bool {
+	switch t {
+	case tEnum, tTypeObj, tTypeAllOf, tTypeNested, tHeaders, tPathDir, tRequestObj, tParams, tResult, tPathX, tPathY,
+		tRespObjRef, tPathRefT, tTypeRefT, tTypeIdObj, tEnumNoName, tRespRef, tRespArr:
+		return true
+	}
+	return false
+}
+
 // verifCommentText: CM symbolic bytes of comment text over { a # blank / * " ( } that do not contain
 // "###" (which would close a block comment): whatever a comment says, it is a comment.
 func verifCommentText(lineComment bool) string {
@@ -125,6 +136,9 @@ func VerifH_SurfaceSyntax() {
 		if i == at {
 			switch rw {
 			case rwCommentLine:
+				if i > 0 && refEndsWithSchemaBody(lines[i-1].t) {
+					verifrt.Note("comment-position", "a line comment directly after a JSight schema body")
+				}
 				text1 += "#" + verifCommentText(true) + " a comment" + nl
 			case rwBlockCommentLine:
 				text1 += "###" + verifCommentText(false) + " block" + nl + "comment ###" + nl
